@@ -223,6 +223,12 @@ def run(ctx):
         hh = r.randint(1, 6)
         half = r.randint(0, 3)
         area = (-(hh - 1), 0, -half, half)
+        if name == 'raytracing' and r.random() < 0.35:
+            # any extent: rows behind the agent, asymmetric, not containing the agent (partially_occluded is defined for forward views only)
+            area = osuite.rand_area(r, centered=0.0, maxh=6, maxw=6)
+            ctx.count('pair oracle area', 'general (rear rows / asymmetric)')
+        else:
+            ctx.count('pair oracle area', 'forward, centred')
         kind, val, log, tape, obs, state = osuite.run_obs(name, area, cs)
         ometas.append((name, area, cs, kind, val, log))
         oreqs.append(osuite.obs_request(name, area, cs, tape))
@@ -232,11 +238,13 @@ def run(ctx):
         h, w = gen.shape_of(g)
         # world cells shown (not Hidden) in the observation
         shown = set()
-        for i in range(hh):
-            for j in range(2 * half + 1):
+        for i in range(area[1] - area[0] + 1):
+            for j in range(area[3] - area[2] + 1):
                 if not isinstance(obs.grid[i, j], Hidden):
                     wp = state.agent.transform * Position(area[0] + i, area[2] + j)
                     shown.add(wp.yx)
+        if area[0] <= 0 <= area[1] and area[2] <= 0 <= area[3] and tuple(p) not in shown:
+            ctx.violation(f"{name}: the agent's own cell is reported Hidden", {'function': name, 'area': area, 'state': gen.show_state(cs), 'wire_state': cs})
         hidden_cells = [(y, x) for y in range(h) for x in range(w) if (y, x) not in shown]
         r.shuffle(hidden_cells)
         f = comp.build_obs({'name': name, 'area': area})
